@@ -314,6 +314,31 @@ fn direct(ctx: &mut Ctx, rng: &mut ChaCha20Rng) {
         let ok = attempt(|| K::commit(&powers, &p, Some(w.hiding_sup), Some(rng)));
         ctx.check(ok.is_ok(), "in-domain-no-abort", "KZG10::commit", desc, || json!({"outcome": ok.as_ref().err().map(|o| o.json())}));
     }
+    // KZG10::batch_check with slices of unequal lengths: every combination of {commitments, points, values, proofs}
+    // shortened (or extended) by one entry - except all four together - is an inconsistent request
+    if let Ok(w) = kzg_world(rng) {
+        use super::offtrait::kzg_item;
+        let n = range(rng, 2, 4);
+        let items: Vec<_> = (0..n + 1).filter_map(|_| kzg_item(&w, rng).ok()).collect();
+        if items.len() == n + 1 {
+            let vk = w.vk();
+            let comms: Vec<_> = items.iter().map(|i| i.comm).collect();
+            let zs: Vec<_> = items.iter().map(|i| i.z).collect();
+            let vs: Vec<_> = items.iter().map(|i| i.v).collect();
+            let pfs: Vec<_> = items.iter().map(|i| i.proof).collect();
+            let mut r = mon_rng(3);
+            let base = crate::rt::decide(|| K::batch_check(&vk, &comms[..n], &zs[..n], &vs[..n], &pfs[..n], &mut r));
+            ctx.check(base == Out::Accept, "in-domain-no-abort", "KZG10::batch_check", json!({"claims": n}), || json!({"outcome": base.json()}));
+            for mask in 1u32..15 {
+                // bit set: that list has n entries; bit clear: n + 1 entries (one honest surplus claim)
+                let len = |b: u32| if mask & (1 << b) != 0 { n } else { n + 1 };
+                let (lc, lz, lv, lp) = (len(0), len(1), len(2), len(3));
+                let mut r = mon_rng(4);
+                let o = crate::rt::decide(|| K::batch_check(&vk, &comms[..lc], &zs[..lz], &vs[..lv], &pfs[..lp], &mut r));
+                not_accepted(ctx, "list-lengths-differ", "KZG10::batch_check", json!({"commitments": lc, "points": lz, "values": lv, "proofs": lp}), o);
+            }
+        }
+    }
     // multilinear PST: polynomial with another number of variables than the key
     let nv = range(rng, 2, 5);
     if let Ok((ck, _vk)) = guard(|| {
